@@ -177,6 +177,65 @@ def _correspondence_once(ctx, rep=0):
     structural(ctx, gen)
     cached_linear_grads(ctx, gen)
     sample_grads(ctx, gen)
+    ar_inverse_grads(ctx, gen)
+
+
+def ar_inverse_grads(ctx, gen, report=None):
+    """the D-pass inverse of the autoregressive transforms (each pass re-runs the conditioner on the previous pass's outputs): the
+    gradient autograd returns for inputs AND conditioner parameters against central finite differences of the implementation —
+    the dual-number model is fed recorded conditioner outputs pass by pass and cannot see a dependence cut between passes"""
+    seen = set()
+    for e in R.entries('quick'):
+        fam = e.spline.get('fam') or e.extra.get('akind')
+        if e.kind != 'ar' or (fam, e.ctx is None) in seen or e.spline.get('fam') == 'cubic':
+            continue
+        seen.add((fam, e.ctx is None))
+        t = tcorr.build(e, gen, torch.float64, 'normal')
+        y = R.make_inputs(e, 2, gen, torch.float64, True)
+        if e.spline.get('B'):
+            y = torch.where((y.abs() - e.spline['B']).abs() < 1e-2, y * 0.37, y)
+        c = R.make_context(e, 2, gen, torch.float64)
+        call = (lambda a: t.inverse(a, c)) if c is not None else (lambda a: t.inverse(a))
+        why = ''
+        try:
+            yg = y.clone().requires_grad_(True)
+            x, ld = call(yg)
+            r = torch.randn(x.shape, generator=gen, dtype=x.dtype); r2 = torch.randn(ld.shape, generator=gen, dtype=ld.dtype)
+            ps = [p for p in t.parameters() if p.requires_grad]
+            grads = torch.autograd.grad((x * r).sum() + (ld * r2).sum(), [yg] + ps, allow_unused=True)
+            dy = torch.randn(y.shape, generator=gen, dtype=y.dtype); h = 1e-6
+            with torch.no_grad():
+                xp, lp = call(y + h * dy); xm, lm = call(y - h * dy)
+            fd = (((xp - xm) * r).sum() + ((lp - lm) * r2).sum()).item() / (2 * h)
+            an = (grads[0] * dy).sum().item() if grads[0] is not None else float('nan')
+            if not abs(fd - an) <= 1e-4 * (1 + abs(fd)):
+                why = 'input gradient of the inverse: autograd %r vs finite differences %r' % (an, fd)
+            else:
+                # one random direction in parameter space
+                ds = [torch.randn(p.shape, generator=gen, dtype=p.dtype) for p in ps]
+                def L():
+                    with torch.no_grad():
+                        xx, ll = call(y)
+                    return ((xx * r).sum() + (ll * r2).sum()).item()
+                with torch.no_grad():
+                    for p, d in zip(ps, ds): p.add_(h * d)
+                    lpv = L()
+                    for p, d in zip(ps, ds): p.sub_(2 * h * d)
+                    lmv = L()
+                    for p, d in zip(ps, ds): p.add_(h * d)
+                fdp = (lpv - lmv) / (2 * h)
+                anp = sum((g * d).sum().item() for g, d in zip(grads[1:], ds) if g is not None)
+                if not abs(fdp - anp) <= 1e-4 * (1 + abs(fdp)):
+                    why = 'parameter gradient of the inverse: autograd %r vs finite differences %r' % (anp, fdp)
+        except Exception as ex:
+            why = 'raised %r' % (ex,)
+        case = {'entry': e.name, 'inverse': True, 'x': y.reshape(-1).tolist()[:8]}
+        if report is None:
+            ctx.case(key=('ar-inverse-grads', e.name), branch='structural/ar-inverse-grads', nontrivial=True, n=int(y.numel()))
+            if why:
+                ctx.disagree('C16/structural', case, why, 'autograd gradient = finite differences', why)
+        elif why:
+            report('autoregressive inverse of %s: %s' % (e.name, why), case, {'class': e.name.split('/')[0], 'symptom': 'ar-inverse-grad'})
 
 
 def sample_grads(ctx, gen, report=None):
@@ -296,6 +355,7 @@ def cached_linear_grads(ctx, gen):
 def search(ctx):
     """central finite differences of the implementation in float64 away from kinks"""
     sample_grads(ctx, torch.Generator().manual_seed(ctx.seed + 161), report=lambda what, case, match: ctx.fail(what, case, match=match))
+    ar_inverse_grads(ctx, torch.Generator().manual_seed(ctx.seed + 162), report=lambda what, case, match: ctx.fail(what, case, match=match))
     gen = torch.Generator().manual_seed(ctx.seed + 1616)
     for e in oracles.all_entries('quick'):
         try:
